@@ -5,7 +5,7 @@ import collections
 
 import numpy as np
 
-from vf import gen, probes
+from vf import gen, plumbing, probes
 
 PID = "C17"
 ANCHORS = ["pyoma2.functions.ssi:build_hank", "pyoma2.functions.ssi:SSI_fast", "pyoma2.functions.ssi:SSI_poles", "pyoma2.functions.ssi:ac2mp", "pyoma2.algorithms.ssi:SSIdat.run"]
@@ -23,7 +23,17 @@ ASSUMPTIONS = ["finite differences of the library's own SSI_fast + eigen-decompo
                "cases outside the quantifier's guards are counted as not judged"]
 
 
+PLUMB_CLASSES = ['SSIcov+unc']
+PLUMB_FIELDS = ['Fn_poles_cov', 'Xi_poles_cov', 'Phi_poles_cov', 'Fn_cov', 'Xi_cov', 'Phi_cov', 'Fn_poles', 'Xi_poles']
+REQUIRED_MONITORS = list(REQUIRED_MONITORS) + [f"plumbing:{s_}" for s_ in plumbing.SCENARIOS]
+REQUIRED_STATES = list(REQUIRED_STATES) + [f"plumbing scenario {s_}" for s_ in plumbing.SCENARIOS]
+
+
 def cases(tier, seed):
+    return _cases(tier, seed) + plumbing.cases(len(plumbing.SCENARIOS) * len(PLUMB_CLASSES) * (1 if tier == "quick" else 6), PLUMB_CLASSES)
+
+
+def _cases(tier, seed):
     n1, n2, n3, n4 = (110, 40, 60, 6) if tier == "quick" else (1500, 500, 800, 60)
     return ([{"cls": "synthetic_factor", "k": k} for k in range(n1)] + [{"cls": "data_factor", "k": k} for k in range(n2)]
             + [{"cls": "factor_definition", "k": k} for k in range(n3)] + [{"cls": "class_run", "k": k} for k in range(n4)])
@@ -269,5 +279,7 @@ def run_class(ctx, rng):
 
 
 def run_case(ctx, case):
+    if case["cls"] == "plumbing":
+        return plumbing.run_case(ctx, case, gen.rng_of(case), PLUMB_FIELDS)
     rng = gen.rng_of(case)
     {"synthetic_factor": run_synthetic, "data_factor": run_data_factor, "factor_definition": run_definition, "class_run": run_class}[case["cls"]](ctx, rng)
